@@ -249,6 +249,20 @@ class C04(PropCheck):
         if js is not None:
             doc = json.loads(js)
             run["doc"] = doc
+            # the defaults given to to_abstract_repr are recorded in the document
+            if defaults is not None:
+                import numpy as np
+
+                for vn, vv in defaults.items():
+                    got = doc["variables"].get(vn, {}).get("value")
+                    want = np.atleast_1d(np.asarray(vv, dtype=float)).tolist()
+                    if got is None or [float(x) for x in got] != want:
+                        bad("abstract:defaults-not-recorded:variable", f"default value of {vn} not recorded: {got} != {want}")
+            if qubits_d is not None:
+                for q in doc["register"]:
+                    if q.get("qid") in qubits_d and q.get("default_trap") != qubits_d[q["qid"]]:
+                        bad("abstract:defaults-not-recorded:default_trap",
+                            f"qubit {q.get('qid')!r}: default_trap {q.get('default_trap')} != {qubits_d[q['qid']]}")
             if not schema_ok(doc):
                 why = "whole-variable-as-number" if schema_ok(fix_whole_vars(doc)) else "other"
                 bad("abstract:schema-invalid:" + why, "the serialised sequence is not valid under the sequence schema")
